@@ -160,7 +160,10 @@ def build(seed, workdir):
         s.local_rms, s.background, s.flags = 1.0, 0.0, 0
         s.ra_str, s.dec_str = "00:00:00.00", "+00:00:00.00"
         if conf["psfcols"]:
-            s.psf_a, s.psf_b, s.psf_pa = conf["beam"], conf["beam"], 0.0
+            # with ratio = 1 ("the image psf is the catalogue psf: keep the catalogued shapes") the psf columns of the
+            # catalogue play no role, whatever they hold - e.g. those of the image the catalogue was made from
+            f = 1.3 if (conf["ratio"] == 1.0 and seed % 2) else 1.0
+            s.psf_a, s.psf_b, s.psf_pa = f * conf["beam"], f * conf["beam"], 0.0
         cat.append(s)
         meta.append({"uuid": s.uuid, "status": kind.split("-")[0], "x": px[0], "y": px[1], "amp": amp, "a": a, "b": b, "pa": pa})
     img = synth.render(shape, comps) if comps else np.zeros(shape)
